@@ -199,6 +199,25 @@ def run_cases(prop_module_name, cases, cpu=120, wall=900, nproc=None, progress=N
 # ---------------------------------------------------------------- verdict side
 
 
+def describe(prop, key):
+    """Human-readable 'what fails' for a mechanism key (used when an entry has no text of its own)."""
+    parts = key.split(":")
+    r = parts[0]
+    rest = ":".join(parts[1:])
+    T = {
+        "C01": "rule %s changes the code-token sequence outside its documented edit contract (%s)" % (r, rest),
+        "C02": "rule %s does not preserve the comment / pragma sequence (%s)" % (r, rest),
+        "C03": "rule %s makes a change outside its documented class (%s)" % (r, rest),
+        "C07": "the lines changed by %s's fix differ from the lines it reported (%s)" % (r, rest),
+        "C08": "after %s the in-memory model and a fresh parse of its own text disagree (%s)" % (r, rest),
+        "C09": "a second --fix still changes the file; first rule to change it in pass 2: %s (%s)" % (r, rest),
+        "C10": "rule %s applied again right after its own fix: %s" % (r, rest),
+        "C18": "%s: region of interest / index invariant broken (%s)" % (r, rest),
+        "C19": "unhandled exception or hang: %s" % key,
+    }
+    return T.get(prop, key)
+
+
 def load_known():
     p = os.path.join(VERIF, "known_findings.json")
     if not os.path.exists(p):
@@ -242,7 +261,7 @@ class Verdict:
         """Print lines; return exit code."""
         for key, d in sorted(self.known_hit.items()):
             e = self.known[key]
-            print("KNOWN-FINDING: property=%s key=%s x%d %s" % (self.prop, key, d["count"], e.get("what", "")))
+            print("KNOWN-FINDING: property=%s key=%s x%d %s" % (self.prop, key, d["count"], e.get("what") or describe(self.prop, key)))
         rc = 0
         rdir = os.path.join(VERIF, "replays", self.prop)
         for key, d in sorted(self.unknown.items()):
